@@ -17,6 +17,7 @@ mod wsx;
 mod life;
 mod w5;
 mod vs;
+mod nsub;
 
 fn main() {
     let args: Vec<String> = std::env::args().collect();
@@ -48,6 +49,7 @@ fn main() {
         "ws-c17" => wsx::c17(&a),
         "ws-c15" => life::run(&a),
         "w5" => w5::run(&a),
+        "nsub" => nsub::run(&a),
         "vs-c09" => vs::c09(&a),
         "vs-c09-vec" => vs::c09_vec(&a),
         "vs-c10" => vs::c10(&a),
